@@ -17,7 +17,7 @@ import (
 // ---------------------------------------------------------------------------
 
 func C18(ctx *core.Ctx, r *core.Report) {
-	r.Explanation = "Structural conditions of delete/replace, decided on all paths: Selection.Delete refuses a selection without parent, sends exactly one request per kind to the parent selection's node, marked Delete, carrying the selection's own schema node and (for a list entry) its own key, inside the begin/end pairing of C12; ReplaceFrom captures the parent before deleting, returns the delete error before inserting and inserts at that parent; a callback value that is nil-checked at one call site is nil-checked at every call site of the same function (the owner of a re-sliced list is told on append and on delete alike); the slice index reports the position of the entry it found, not its rank in the sorted index. Key uniqueness through the editor rests on lookup-before-create (decided under C03). Not decided: that siblings keep their data, behaviour of each backing store, histories."
+	r.Explanation = "Structural conditions of delete/replace, decided on all paths: Selection.Delete refuses a selection without parent, sends exactly one request per kind to the parent selection's node, marked Delete, carrying the selection's own schema node and (for a list entry) its own key, inside the begin/end pairing of C12; ReplaceFrom captures the parent before deleting, returns the delete error before inserting and inserts at that parent; a callback value that is nil-checked at one call site is nil-checked at every call site of the same function (the owner of a re-sliced list is told on append and on delete alike); the slice index reports the position of the entry it found, not its rank in the sorted index. Key uniqueness through the editor rests on lookup-before-create (decided under C03). The reflection list nodes drop their cached key index whenever they change the container; the linear key search matches on all key leaves. Not decided: that siblings keep their data, behaviour of each backing store, histories."
 	del := ctx.Method("node", "Selection", "Delete")
 	repl := ctx.Method("node", "Selection", "ReplaceFrom")
 	nodeI := ctx.Named("node", "Node")
